@@ -7,6 +7,8 @@ import (
 	"strings"
 
 	"github.com/bnb-chain/tss-lib/v2/crypto"
+	ecdsakeygen "github.com/bnb-chain/tss-lib/v2/ecdsa/keygen"
+	ecdsaresharing "github.com/bnb-chain/tss-lib/v2/ecdsa/resharing"
 	eddsakeygen "github.com/bnb-chain/tss-lib/v2/eddsa/keygen"
 	eddsaresharing "github.com/bnb-chain/tss-lib/v2/eddsa/resharing"
 	"github.com/bnb-chain/tss-lib/v2/tss"
@@ -16,6 +18,17 @@ import (
 // (Core/BlameRs.newMember): from the fields it received from each old member the model predicts the acknowledgement
 // (and the share it will save) or the error's culprit list; the Go party must have done exactly that.
 func rsJudge(r *Run, net *Net, nOld, newT int, what string) {
+	rsJudgeOn(r, net, nOld, newT, what, "ed")
+}
+
+// rsJudgeOn: the same for either curve. ECDSA new members run the model with cofactor 1 on secp256k1 (op
+// rs_new_member_ec); their round 4 first checks the other new members' parameters (BlameEc.rsRound4Params, tied in
+// C05) — an error of that part is not a verdict of the part modelled here and is skipped.
+func rsJudgeOn(r *Run, net *Net, nOld, newT int, what, curve string) {
+	op := "rs_new_member"
+	if curve == "ec" {
+		op = "rs_new_member_ec"
+	}
 	for i := nOld; i < len(net.Nodes); i++ {
 		nd := net.Nodes[i]
 		type in struct {
@@ -38,6 +51,12 @@ func rsJudge(r *Run, net *Net, nOld, newT int, what string) {
 			case *eddsaresharing.DGRound3Message1:
 				p.share = c.GetShare()
 			case *eddsaresharing.DGRound3Message2:
+				p.d = c.GetVDecommitment()
+			case *ecdsaresharing.DGRound1Message:
+				p.px, p.py, p.c = c.GetEcdsaPubX(), c.GetEcdsaPubY(), c.GetVCommitment()
+			case *ecdsaresharing.DGRound3Message1:
+				p.share = c.GetShare()
+			case *ecdsaresharing.DGRound3Message2:
 				p.d = c.GetVDecommitment()
 			}
 		}
@@ -62,12 +81,21 @@ func rsJudge(r *Run, net *Net, nOld, newT int, what string) {
 		switch {
 		case refusedBeforeStore(nd.Err):
 			continue
+		case refusedBeforeStore(nd.Err):
+			continue
+		case nd.Err != nil && nd.Err.Round() == 4 && curve == "ec" && rsParamsError(nd.Err):
+			continue
 		case nd.Err != nil && (nd.Err.Round() == 1 || nd.Err.Round() == 4):
 			goRes = "ok fail culprits=" + culpritSet(net, nd.Err)
 		case nd.Err != nil:
 			continue
 		case len(nd.Ends) == 1 && complete:
-			goRes = "ok pass xi=" + eInt(nd.Ends[0].(*eddsakeygen.LocalPartySaveData).Xi)
+			switch k := nd.Ends[0].(type) {
+			case *eddsakeygen.LocalPartySaveData:
+				goRes = "ok pass xi=" + eInt(k.Xi)
+			case *ecdsakeygen.LocalPartySaveData:
+				goRes = "ok pass xi=" + eInt(k.Xi)
+			}
 		default:
 			continue // stopped for another reason (a peer's failure ended the run)
 		}
@@ -81,16 +109,16 @@ func rsJudge(r *Run, net *Net, nOld, newT int, what string) {
 				msgs[k] = strings.Join([]string{f[0], f[1], f[2], f[3], "_", "-"}, "/")
 			}
 		}
-		lean := r.model.Call("rs_new_member", "1", fmt.Sprint(newT), eInt(new(big.Int).SetBytes(nd.ID.Key)), fmt.Sprint(i), strings.Join(msgs, ";"))
-		line := fmt.Sprintf("rs_new_member new member %d (%s)", i-nOld, what)
-		r.count("rs_new_member", goRes, true, line)
+		lean := r.model.Call(op, "1", fmt.Sprint(newT), eInt(new(big.Int).SetBytes(nd.ID.Key)), fmt.Sprint(i), strings.Join(msgs, ";"))
+		line := fmt.Sprintf("%s new member %d (%s)", op, i-nOld, what)
+		r.count(op, goRes, true, line)
 		r.Traces++
 		cmp := lean
 		if f := strings.Fields(cmp); len(f) >= 3 && f[1] == "fail" {
 			cmp = strings.Join(f[:3], " ")
 		}
 		if cmp != goRes {
-			r.fail(Failure{Kind: "diff", Key: "blame/eddsa-resharing-new-member/" + what, Op: line + " args: " + strings.Join(msgs, ";")[:min(500, len(strings.Join(msgs, ";")))], Go: goRes, Lean: lean})
+			r.fail(Failure{Kind: "diff", Key: "blame/" + curve + "dsa-resharing-new-member/" + what, Op: line + " args: " + strings.Join(msgs, ";")[:min(500, len(strings.Join(msgs, ";")))], Go: goRes, Lean: lean})
 		}
 	}
 }
@@ -152,3 +180,58 @@ func blameCorrespondenceRs(r *Run, rng *rand.Rand, thorough bool) {
 }
 
 var _ = crypto.ScalarBaseMult
+
+// rsParamsError: an error of the first part of an ECDSA new member's round 4 (the other new members' parameters)
+func rsParamsError(e *tss.Error) bool {
+	for _, w := range []string{"dln proof verification failed", "h1j and h2j were equal", "already used by another party"} {
+		if strings.Contains(e.Error(), w) {
+			return true
+		}
+	}
+	return false
+}
+
+// blameCorrespondenceRsEcShares: tampered ECDSA resharing runs (3 old → 3 new, proofs off, one old member altering one
+// field of what it sends to the new members) judged by rsJudgeOn
+func blameCorrespondenceRsEcShares(r *Run, rng *rand.Rand, thorough bool) {
+	eks := fixtureEcKeys()
+	type tw struct {
+		typ, field, kind string
+		elem             int
+	}
+	tweaks := []tw{{"", "", "", 0}, {"DGRound3Message1", "share", "+1", 0}, {"DGRound3Message1", "share", "negq", 0}, {"DGRound3Message2", "v_decommitment", "+1", 1},
+		{"DGRound3Message2", "v_decommitment", "drop-field", 0}, {"DGRound1Message", "v_commitment", "random", 0}, {"DGRound1Message", "ecdsa_pub_x", "+1", 0},
+		{"DGRound1Message", "ecdsa_pub_y", "negp", 0}, {"DGRound3Message2", "v_decommitment", "empty", 2}}
+	if !thorough {
+		tweaks = []tw{tweaks[1+int(r.Seed)%2], tweaks[3+int(r.Seed)%3], tweaks[6+int(r.Seed)%2]}
+	}
+	nOld := 3
+	for ti, t := range tweaks {
+		keys := make([]ecdsakeygen.LocalPartySaveData, nOld)
+		for i := range keys {
+			keys[i] = eks.keys[i]
+			keys[i].Xi = new(big.Int).Set(eks.keys[i].Xi)
+		}
+		newPIDs := makePIDs([]*big.Int{big.NewInt(9401), big.NewInt(9402), big.NewInt(9403)}, "N")
+		net := ecdsaResharingNet(rng, keys, eks.pids[:nOld], eks.t, newPIDs, 1, false, 0)
+		dev := (ti + int(r.Seed)) % 3
+		if t.typ != "" {
+			trng := rand.New(rand.NewSource(rng.Int63()))
+			net.Tamper = func(from int, m tss.Message) []tss.Message {
+				if from != dev || shortType(m.Type()) != t.typ {
+					return []tss.Message{m}
+				}
+				mutateOnEd = false
+				tm, _ := tamperMsg(trng, m, nil, injSpec{Type: t.typ, Field: t.field, Elem: t.elem, Kind: t.kind})
+				return []tss.Message{tm}
+			}
+		}
+		net.StopOnError = true
+		net.Run(rand.New(rand.NewSource(2)), Strategy{Name: "fifo", Pick: pickFIFO}, 300000)
+		if len(net.Panics) > 0 {
+			r.Assert(false, "blame/ecdsa-resharing/panic", "no-panic-under-injection", func() string { return fmt.Sprint(t, net.Panics) })
+			continue
+		}
+		rsJudgeOn(r, net, nOld, 1, fmt.Sprintf("%s.%s %s by old member %d", t.typ, t.field, t.kind, dev), "ec")
+	}
+}
